@@ -30,7 +30,7 @@ RULE = (
 )
 ASSUMPTIONS = ["'syntax error' is the stand-in front end's judgement (tfv/gqlparse.py); the real libgraphqlparser is absent from the sandbox (DESIGN 1.1)"]
 
-ALPHABET = list("{}()[]:!$@=.,|&#\"\\ \n\tabcxyzQ_019-+eE") + ["...", "query", "mutation", "fragment", "on", "true", "null", "é", "😀", "\u0000", "﻿", "\r\n", '"""']
+ALPHABET = list("{}()[]:!$@=.,|&#\"\\ \n\tabcxyzQ_019-+eE") + ["...", "query", "mutation", "fragment", "on", "true", "null", "é", "😀", "\u0000", "﻿", "\r\n", '"""', "\ud800", "\udfff"]
 TOKEN_RE = re.compile(r'\.\.\.|"""|"(?:[^"\\\n]|\\.)*"|[A-Za-z_][A-Za-z0-9_]*|-?[0-9]+(?:\.[0-9]+)?|\s+|.', re.S)
 
 
@@ -203,7 +203,7 @@ def case(c, stats):
         c01.reference(spec, c)
         valid.append(spec)
     for _ in range(REQUESTS_PER_ENGINE):
-        kind = c.weighted([(4, "mutated"), (3, "random"), (2, "valid"), (1, "deep"), (1, "empty"), (2, "bytes"), (1, "typesystem")])
+        kind = c.weighted([(4, "mutated"), (3, "random"), (2, "valid"), (1, "deep"), (1, "empty"), (2, "bytes"), (1, "typesystem"), (2, "concat"), (1, "surrogate")])
         base = c.choice(valid)
         text = print_document(base["doc"]).text
         tree = None
@@ -226,10 +226,17 @@ def case(c, stats):
         elif kind == "typesystem":
             extra = c.choice(["type ZzT { a: Int }", "scalar ZzS", "schema { query: Query }", "extend type Query { zz: Int }", "directive @zz on FIELD", "enum ZzE { A }", "input ZzI { a: Int }", '"desc" type ZzD { a: Int }'])
             q = (extra + "\n" + text) if c.maybe(50) else (text + "\n" + extra)
+        elif kind == "concat":
+            # several documents glued together: several anonymous operations, anonymous next to named, clashing names
+            parts = [c.choice([text, "{ __typename }", "query { __typename }", "query ZzOther { __typename }", print_document(c.choice(valid)["doc"]).text]) for _ in range(c.int(2, 3))]
+            q = "\n".join(parts)
+        elif kind == "surrogate":
+            i = c.int(0, len(text))
+            q = text[:i] + c.choice(['"\ud83d"', "\udc00", '#\ud800\n']) + text[i:]
         elif kind == "empty":
             q = c.choice(["", " ", "\n", "#c", ","])
         else:
-            bq = c.choice([text, mutate_tokens(c, text), random_text(c)]).encode("utf-8")
+            bq = c.choice([text, mutate_tokens(c, text), random_text(c)]).encode("utf-8", "surrogatepass")
             if c.maybe(40):
                 i = c.int(0, len(bq))
                 bq = bq[:i] + c.choice([b"\xff", b"\xc3", b"\x00", b"\xe2\x82"]) + bq[i:]
@@ -242,7 +249,7 @@ def case(c, stats):
         spec = {"schema": schema, "plan": plan, "query": q, "op": op, "variables": variables, "tree": tree, "coercer": coercer is not None}
         front, resp = run_one(spec, h, coercer)
         cls = "syntax_error" if front[0] == "syntax" else ("selection_fails" if selection_fails(front[1], op) else ("has_errors" if "errors" in resp else "clean"))
-        nontrivial = kind in ("mutated", "random", "deep", "bytes", "typesystem") or cls == "selection_fails"
+        nontrivial = kind in ("mutated", "random", "deep", "bytes", "typesystem", "concat", "surrogate") or cls == "selection_fails"
         stats.case({"q": q, "op": op, "v": variables, "s": schema["types"], "co": coercer is not None}, nontrivial, ["kind:" + kind, "outcome:" + cls, "coercer:" + str(coercer is not None)],
                    {"query": q, "operation_name": op, "variables": variables, "outcome": cls})
 
